@@ -219,6 +219,12 @@ func verifQtPieces(n *qtNode, out []Line2) []Line2 {
 		return out
 	}
 	for _, li := range n.leaf {
+		// a zero-length piece (a repeated polygon vertex, e.g. GearRack2D with BaseHeight = 0) has no unit
+		// vector: Evaluate is NaN where the quadtree search reaches its leaf and unaffected elsewhere; it
+		// crosses no ray and its point is an end point of its neighbours, so the dumped mesh omits it
+		if li.line[0] == li.line[1] {
+			continue
+		}
 		out = append(out, *li.line)
 	}
 	for i := range n.child {
@@ -297,6 +303,9 @@ func (d *verifDumper) dump2(s SDF2) *VerifShape {
 		// the same observable as a MeshSDF2 over the original segments
 		n.Kind = "Mesh2"
 		for _, li := range x.mesh {
+			if li.line[0] == li.line[1] {
+				continue
+			}
 			n.Segs = append(n.Segs, *li.line)
 		}
 	case *FlatFlankCamSDF2:
